@@ -33,11 +33,12 @@ type SimSink struct {
 	Name string
 	Frag int // max fragments per write (>=1)
 
-	WritePlan []Outcome // outcome of the i-th Write (beyond the list: success)
-	SyncPlan  []error
-	CloseErr  error
-	FailFrom  int // from this Write call index on every write fails ("disk full"); 0 = never
-	FailErr   error
+	WritePlan    []Outcome // outcome of the i-th Write (beyond the list: success)
+	SyncPlan     []error
+	CloseErr     error
+	MustProgress bool // a write that reports no error takes at least one byte (beneath bufio, which would spin)
+	FailFrom     int  // from this Write call index on every write fails ("disk full"); 0 = never
+	FailErr      error
 
 	Data      []byte
 	Calls     []SinkCall
@@ -118,6 +119,9 @@ func (s *SimSink) Write(p []byte) (int, error) {
 		if take < 0 {
 			take = 0
 		}
+	}
+	if s.MustProgress && out.Err == nil && take == 0 && len(p) > 0 {
+		take = 1 // a sink that reports no error makes progress (bufio would spin otherwise)
 	}
 	s.cur, s.curOff, s.curTake = p, len(s.Data), take
 	frags := 1
